@@ -172,7 +172,7 @@ struct Ex {
     if (auto *MT = dyn_cast<MaterializeTemporaryExpr>(E)) return path(MT->getSubExpr());
     if (auto *BT = dyn_cast<CXXBindTemporaryExpr>(E)) return path(BT->getSubExpr());
     if (auto *CC = dyn_cast<CXXConstructExpr>(E)) { if (CC->getNumArgs()==1) return "ctor(" + path(CC->getArg(0)) + ")"; if (CC->getNumArgs()==0) return "ctor()"; return "ctor(...)"; }
-    if (auto *IL = dyn_cast<InitListExpr>(E)) { if (IL->getNumInits()==0) return "{}"; if (IL->getNumInits()==1) return "{" + path(IL->getInit(0)) + "}"; return "{...}"; }
+    if (auto *IL = dyn_cast<InitListExpr>(E)) { if (IL->getNumInits()==0) return "{}"; if (IL->getNumInits()==1) return "{" + path(IL->getInit(0)) + "}"; if (IL->getNumInits() > 8) return "{...}"; std::string r = "{"; for (unsigned i = 0; i < IL->getNumInits(); ++i) { if (i) r += ", "; r += path(IL->getInit(i)); } return r + "}"; }
     if (auto *BO = dyn_cast<BinaryOperator>(E)) return "(" + path(BO->getLHS()) + " " + BO->getOpcodeStr().str() + " " + path(BO->getRHS()) + ")";
     if (auto *RB = dyn_cast<CXXRewrittenBinaryOperator>(E)) { auto D = RB->getDecomposedForm(); return "(" + path(D.LHS) + " " + BinaryOperator::getOpcodeStr(D.Opcode).str() + " " + path(D.RHS) + ")"; }
     if (auto *CO = dyn_cast<ConditionalOperator>(E)) return "(" + path(CO->getCond()) + " ? " + path(CO->getTrueExpr()) + " : " + path(CO->getFalseExpr()) + ")";
